@@ -1,12 +1,10 @@
 --------------------------- MODULE MCSignedSource ---------------------------
 (* Model run for C33: the states are the contents (built lexeme by lexeme up to MaxLen).
-   For every content TLC evaluates the design (layer B) against the property:
-     - on the class "single_token" (one token, no older signature in front of it) the design
-       satisfies the property: invariant DesignOkOnSingleToken (B => A on that class);
-     - on the other classes the design itself predicts a deviation (several tokens: sign replaces
-       all of them, verify restores one; an older signature in front: verify looks at the first
-       match).  The prediction is emitted with the case (field pred_valid) and decided on the
-       real code by the trace specification. *)
+   For every content that contains the signing token TLC checks the design (layer B, repaired verify)
+   against the property: invariant DesignOk (B => A): signing then verifying succeeds, and every
+   single-lexeme substitution outside the created signatures makes verification fail.
+   Every content is emitted with the prediction (pred_valid, pred_edits_break) and decided on the
+   real code by the trace specification. *)
 EXTENDS SignedSource, Json
 
 CONSTANTS MaxLen
@@ -27,12 +25,13 @@ Extend ==
 Next == Extend
 Spec == Init /\ [][Next]_x
 
-DesignOkOnSingleToken ==
-    (HasSigningToken(x) /\ ContentClass(x) = "single_token") => DesignSignVerifies(x) /\ DesignEditsBreak(x)
+\* B => A on every content that contains the signing token
+DesignOk == HasSigningToken(x) => DesignSignVerifies(x) /\ DesignEditsBreak(x)
 
-\* the two predicted deviations are real at design level (so the classes are not vacuous)
-DeviationsPredicted ==
-    /\ ~DesignSignVerifies(<< "G", "T", "T" >>)
-    /\ ~DesignSignVerifies(<< "G", "S", "G", "T" >>)
-ASSUME DeviationsPredicted
+\* the verify before the repair deviates exactly where the two findings were (classes are not vacuous)
+OldDeviations ==
+    /\ ~VerifyFirstOnly(Sign(<< "G", "T", "T" >>))
+    /\ ~VerifyFirstOnly(Sign(<< "G", "S", "G", "T" >>))
+    /\ VerifyFirstOnly(Sign(<< "G", "T" >>))
+ASSUME OldDeviations
 =============================================================================
